@@ -147,7 +147,7 @@ pub fn check_parents(run: &mut Run, c: MCell) {
 
 fn run(ctx: &Ctx) -> Run {
     silence_panics();
-    let exhaustive_to: i32 = if ctx.quick() { 7 } else { 8 };
+    let exhaustive_to: i32 = if ctx.quick() { 7 } else { 9 };
     let threads = ctx.threads;
     let mut out = parallel(threads, |w, run| {
         let mut rng = ctx.rng("C07", w);
